@@ -345,8 +345,11 @@ def typed_strategies():
     intexp = st.recursive(int_leaf, lambda ch: st.tuples(st.sampled_from(['+', '-', '*']), ch, ch).map(
         lambda t: ['bin', t[0], t[1], t[2]]), max_leaves=3)
     word = st.sampled_from(WORDS).map(lambda w: ['str', w])
+    # texts with characters that mean something elsewhere (in formulas, in xml, in format strings): under & they are just characters
+    odd = st.sampled_from(['a@b', '@', 'x  y', ' lead', 'trail ', 'tab\there', '#1', '{0}', '{x}', '[1]x', '_xlfn.', "o'k", 'a,b;c', '1+1', '(x)', 'A1:B2', 'é', 'ß', '100%',
+                           '=1', '<>', '&', '$A$1', '\\n', '%s', 'TRUE', ' ']).map(lambda w: ['str', w])
     quotient = st.tuples(st.integers(1, 12), st.sampled_from([1, 2, 3, 4, 5, 8])).map(lambda t: ['par', ['bin', '/', ['num', str(t[0])], ['num', str(t[1])]]])
-    piece = st.one_of(word, word, intexp, st.tuples(st.integers(0, 9), st.integers(1, 9)).map(lambda t: ['num', f'{t[0]}.{t[1]}']),
+    piece = st.one_of(word, word, odd, intexp, st.tuples(st.integers(0, 9), st.integers(1, 9)).map(lambda t: ['num', f'{t[0]}.{t[1]}']),
                       boollit, quotient, st.sampled_from(['A5', 'A6']).map(lambda r: ['ref', r]),
                       st.one_of(boollit, st.sampled_from(['A5', 'A6']).map(lambda r: ['ref', r])).map(lambda x: ['un', '-', ['un', '-', x]]),
                       st.one_of(boollit, intlit).map(lambda x: ['un', '+', x]))
